@@ -213,6 +213,10 @@ def eq(node, pattern, bind=None):
             ok = kind == "expr" and m.node(p, node)
     else:
         ok = False
+    if not ok and getattr(anchor, "_canon", False):
+        d = near(node, pattern, bind)
+        if d:
+            _LOG.append(d)
     return m.fwd if ok else None
 
 
@@ -221,6 +225,9 @@ def find(root, pattern, bind=None, nested=True):
     result is the first statement of the first matching consecutive run inside some block."""
     for hit in findall(root, pattern, bind, nested):
         return hit
+    d = near_anywhere(root, pattern, bind)
+    if d:
+        _LOG.append(d)
     return None
 
 
@@ -291,7 +298,12 @@ class NormText(str):
             return False
         if isinstance(self.node, ast.Name):
             return False  # a bare name is only equal to itself
-        return eq(self.node, other) is not None
+        if eq(self.node, other) is not None:
+            return True
+        d = near(self.node, other)
+        if d:
+            _LOG.append(d)
+        return False
 
     def __ne__(self, other):
         return not self.__eq__(other)
@@ -303,7 +315,12 @@ class NormText(str):
             return True
         if self.node is None or isinstance(item, NormText) or len(item) < 6 or not getattr(self.node, "_canon", False):
             return False
-        return find(self.node, item) is not None
+        if find(self.node, item) is not None:
+            return True
+        d = near_anywhere(self.node, item)
+        if d:
+            _LOG.append(d)
+        return False
 
 
 class Binder:
@@ -331,3 +348,151 @@ class Binder:
 
     def name(self, pattern_name):
         return self.map.get(pattern_name)
+
+
+# ---------------------------------------------------------------------------------------------------------------
+# Near misses: telling "the construct is here but differs in a detail" from "the construct is not recognisable"
+# ---------------------------------------------------------------------------------------------------------------
+
+_LOG = []          # near-miss descriptions of failed comparisons since the last decision
+NEAR_MIN_SIZE = 7  # patterns smaller than this never count as near misses
+NEAR_RATIO = 0.7
+NEAR_MAX_DIFFS = 3
+
+
+def take_log():
+    out = list(_LOG)
+    del _LOG[:]
+    return out
+
+
+def _size(n):
+    if isinstance(n, list):
+        return sum(_size(x) for x in n)
+    if not isinstance(n, ast.AST):
+        return 0
+    return 1 + sum(_size(getattr(n, f, None)) for f in n._fields if f not in _SKIP_FIELDS)
+
+
+def _txt(x):
+    try:
+        if isinstance(x, list):
+            return "; ".join(_txt(y) for y in x)[:80]
+        return " ".join(ast.unparse(x).split())[:80] if isinstance(x, ast.AST) else repr(x)
+    except Exception:
+        return "<?>"
+
+
+def _align(m, p, n, diffs):
+    """Number of pattern nodes matched when aligning pattern p with node n top-down; differing parts go to `diffs`."""
+    if isinstance(p, list) or isinstance(n, list):
+        if not (isinstance(p, list) and isinstance(n, list)):
+            diffs.append((_txt(p), _txt(n)))
+            return 0
+        if p and isinstance(p[0], ast.stmt) and any(_is_ellipsis(x) for x in p):
+            return _size(p) if m.block(p, n) else (diffs.append((_txt(p), _txt(n))) or 0)
+        if len(p) != len(n):
+            # align the common prefix and suffix; the middle is one difference
+            k = 0
+            i = 0
+            while i < min(len(p), len(n)) and _quick_same(m, p[i], n[i]):
+                k += _size(p[i]); i += 1
+            j = 0
+            while j < min(len(p), len(n)) - i and _quick_same(m, p[-1 - j], n[-1 - j]):
+                k += _size(p[-1 - j]); j += 1
+            diffs.append((_txt(p[i:len(p) - j]), _txt(n[i:len(n) - j])))
+            return k
+        return sum(_align(m, a, b, diffs) for a, b in zip(p, n))
+    if not isinstance(p, ast.AST):
+        if isinstance(n, ast.AST) or p != n:
+            diffs.append((repr(p), _txt(n)))
+            return 0
+        return 0
+    if isinstance(p, ast.Name) and p.id == "__" and isinstance(n, ast.expr):
+        return 1
+    if type(p) is not type(n):
+        diffs.append((_txt(p), _txt(n)))
+        return 0
+    saved = (dict(m.fwd), dict(m.rev))
+    if m.node(p, n):
+        return _size(p)
+    m.fwd, m.rev = saved
+    if isinstance(p, ast.Name):
+        diffs.append((p.id, n.id))
+        return 0
+    k = 1
+    for fld in p._fields:
+        if fld in _SKIP_FIELDS:
+            continue
+        a, b = getattr(p, fld, None), getattr(n, fld, None)
+        if a is None and b is None:
+            continue
+        if a is None or b is None:
+            diffs.append((_txt(a) if a is not None else "nothing", _txt(b) if b is not None else "nothing"))
+            continue
+        k += _align(m, a, b, diffs)
+    return k
+
+
+def _quick_same(m, a, b):
+    saved = (dict(m.fwd), dict(m.rev))
+    ok = m.any(a, b)
+    if not ok:
+        m.fwd, m.rev = saved
+    return ok
+
+
+def near(node, pattern, bind=None):
+    """None if the node matches or is nothing like the pattern; otherwise a description of the few differences."""
+    pp = parse_pattern(pattern)
+    if pp is None or node is None:
+        return None
+    kind, p = pp
+    if kind == "stmts" and isinstance(node, ast.stmt):
+        node = [node]
+    if kind == "expr" and isinstance(node, ast.stmt):
+        if not isinstance(node, ast.Expr):
+            return None
+        node = node.value
+    if kind == "stmts" and not isinstance(node, list):
+        return None
+    total = _size(p)
+    if total < NEAR_MIN_SIZE:
+        return None
+    anchor = node[0] if isinstance(node, list) and node else node
+    if not isinstance(anchor, ast.AST):
+        return None
+    m = _matcher(anchor, bind)
+    diffs = []
+    got = _align(m, p, node, diffs)
+    if not diffs or len(diffs) > NEAR_MAX_DIFFS or got < NEAR_RATIO * total:
+        return None
+    return "; ".join(f"`{b}` where `{a}` is required" for a, b in diffs)
+
+
+def near_anywhere(root, pattern, bind=None):
+    """Best near miss of the pattern among the nodes under root (same node kind as the pattern's top)."""
+    pp = parse_pattern(pattern)
+    if pp is None or root is None:
+        return None
+    kind, p = pp
+    if _size(p) < NEAR_MIN_SIZE:
+        return None
+    roots = root if isinstance(root, list) else [root]
+    for r in roots:
+        for n in ast.walk(r):
+            if kind == "expr":
+                if type(n) is type(p):
+                    d = near(n, pattern, bind)
+                    if d:
+                        return d
+            else:
+                for fld in ("body", "orelse", "finalbody"):
+                    blk = getattr(n, fld, None)
+                    if isinstance(blk, list) and blk and isinstance(blk[0], ast.stmt):
+                        for i in range(len(blk)):
+                            if type(blk[i]) is type(p[0]) and len(blk) - i >= len(p):
+                                d = near(blk[i:i + len(p)], pattern, bind)
+                                if d:
+                                    return d
+    return None
